@@ -56,8 +56,32 @@ type c10Guard struct {
 }
 
 // c10Guards lists the conditions of the enclosing if/case statements of n up to (not including) stop.
-func c10Guards(f *kit.Func, n ast.Node, stop ast.Node) []c10Guard {
-	var out []c10Guard
+func c10Guards(f *kit.Func, n ast.Node, stop ast.Node) (out []c10Guard) {
+	defer func() {
+		// a condition kept in a boolean local stands for its definition
+		for i := range out {
+			e := ast.Unparen(out[i].cond)
+			for {
+				if u, ok := e.(*ast.UnaryExpr); ok && u.Op == token.NOT {
+					if _, isId := ast.Unparen(u.X).(*ast.Ident); isId {
+						if r := c10ResolveLocal(f, u.X); r != u.X {
+							out[i].neg = !out[i].neg
+							e = ast.Unparen(r)
+							continue
+						}
+					}
+				}
+				if _, isId := e.(*ast.Ident); isId {
+					if r := c10ResolveLocal(f, e); r != e {
+						e = ast.Unparen(r)
+						continue
+					}
+				}
+				break
+			}
+			out[i].cond = e
+		}
+	}()
 	child := n
 	for p := f.Prog.Parent(f.File, n); p != nil && p != stop; p = f.Prog.Parent(f.File, p) {
 		switch x := p.(type) {
@@ -69,8 +93,26 @@ func c10Guards(f *kit.Func, n ast.Node, stop ast.Node) []c10Guard {
 			}
 		case *ast.CaseClause:
 			if sw, ok := f.Prog.Parent(f.File, f.Prog.Parent(f.File, x)).(*ast.SwitchStmt); ok && sw.Tag == nil {
-				for _, e := range x.List {
-					out = append(out, c10Guard{e, false})
+				// `case a, b:` is a disjunction: only a single expression is a
+				// (conjunctive) guard; every expression of the clauses above
+				// (of all clauses, for default) is known false
+				if len(x.List) == 1 {
+					out = append(out, c10Guard{x.List[0], false})
+				}
+				for _, st := range sw.Body.List {
+					cc := st.(*ast.CaseClause)
+					if cc == x {
+						if x.List != nil {
+							break
+						}
+						continue
+					}
+					if x.List != nil && cc.Pos() > x.Pos() {
+						break
+					}
+					for _, e := range cc.List {
+						out = append(out, c10Guard{e, true})
+					}
 				}
 			}
 		case *ast.ForStmt:
@@ -142,15 +184,23 @@ func c10GrowGuard(fr *c10Frame, at ast.Node, T ast.Expr, c1 int64, X ast.Expr) s
 	f := fr.f
 	info := f.Info()
 	for _, gd := range c10Guards(f, at, fr.root) {
+		leaves := c10Leaves(gd.cond, token.LAND)
 		if gd.neg {
-			continue
+			// ¬(a || b) = ¬a && ¬b; the negation of a conjunction says nothing usable
+			leaves = c10Leaves(gd.cond, token.LOR)
+			if len(c10Leaves(gd.cond, token.LAND)) > 1 {
+				continue
+			}
 		}
-		for _, leaf := range c10Leaves(gd.cond, token.LAND) {
+		for _, leaf := range leaves {
 			be, ok := leaf.(*ast.BinaryExpr)
 			if !ok {
 				continue
 			}
 			a, b, op := be.X, be.Y, be.Op
+			if gd.neg {
+				op = map[token.Token]token.Token{token.LSS: token.GEQ, token.LEQ: token.GTR, token.GTR: token.LEQ, token.GEQ: token.LSS}[op]
+			}
 			switch op {
 			case token.LSS:
 				a, b, op = b, a, token.GTR
@@ -370,7 +420,7 @@ func c10DeletedPure(fr *c10Frame, d ast.Expr) (okMsg, bad, und string) {
 			tomb, anyGuard := false, false
 			for _, gd := range c10Guards(f, as, f.Body) {
 				hasT := false
-				ast.Inspect(gd.cond, func(y ast.Node) bool {
+				ast.Inspect(c10ResolveLocal(f, gd.cond), func(y ast.Node) bool {
 					if sel, ok := y.(*ast.SelectorExpr); ok && sel.Sel.Name == "Tombstone" && kit.IsNamedType(info.TypeOf(sel.X), kit.ModPath+"/data", "Point") {
 						hasT = true
 					}
@@ -390,7 +440,7 @@ func c10DeletedPure(fr *c10Frame, d ast.Expr) (okMsg, bad, und string) {
 				// no enclosing condition speaks about the point's tombstone
 				points := false
 				for _, gd := range c10Guards(f, as, f.Body) {
-					ast.Inspect(gd.cond, func(y ast.Node) bool {
+					ast.Inspect(c10ResolveLocal(f, gd.cond), func(y ast.Node) bool {
 						if e, ok := y.(ast.Expr); ok && kit.IsNamedType(info.TypeOf(e), kit.ModPath+"/data", "Point") {
 							points = true
 						}
